@@ -88,8 +88,25 @@ func runC08() {
 		n = 10000
 	}
 	lo, hi := c.Slice(n)
+	var cases []HookCase
 	for i := lo; i < hi; i++ {
-		hc := genC08(c, int64(i))
+		cases = append(cases, genC08(c, int64(i)))
+	}
+	// over-running calls: a few per run, spread over the batches (each costs ~3 s of waiting)
+	nOver, nb := 4, c.NBatch
+	if c.Tier == "thorough" {
+		nOver = 32
+	}
+	if nb < 1 {
+		nb = 1
+	}
+	for v := 0; v < nOver; v++ {
+		if v%nb == c.Batch%nb {
+			cases = append(cases, genOverrun(c, v))
+		}
+	}
+	for n, hc := range cases {
+		i := int(hc.Idx)
 		id := c.Case(hc)
 		out, err := execC08(w, hc)
 		if err != nil {
@@ -112,7 +129,7 @@ func runC08() {
 		for _, v := range checkC08(out) {
 			c.Violation(v.Rule, v.Class, v.Detail, id, witnessOf(out, v))
 		}
-		if i-lo < 3 {
+		if n < 3 {
 			c.Sample(map[string]interface{}{"walk": hc.Walk, "hooks": hc.Hooks, "records": len(out.Records)})
 		}
 	}
@@ -219,6 +236,48 @@ func genC08(c *vlib.Ctx, idx int64) HookCase {
 	return hc
 }
 
+// overrunSleepMs: how long an over-running call takes; its declared timeout is 100 ms.
+const overrunSleepMs = 2700
+
+// genOverrun: two calls (one critical, one not) with `timeout: 100ms` that take
+// 2.7 s and succeed, awaited at the trigger point / a later weight / a later
+// moment / in the next transition (v%4), so that the state machine reaches their
+// await point while they are still running. The handbook: "The ECS will not
+// abort the call upon reaching the timeout value" - the state machine waits, the
+// result is collected once. Judged by the ordinary C08 rules on the call's real
+// end record.
+func genOverrun(c *vlib.Ctx, v int) HookCase {
+	r := c.SubRand(int64(1000000 + v))
+	hc := HookCase{Prop: "C08", Idx: int64(1000000 + v), Overrun: true, Walk: []string{"DEPLOY", "CONFIGURE", "START_ACTIVITY", "STOP_ACTIVITY"}}
+	var trig, await string
+	switch v % 4 {
+	case 0:
+		trig = envlab.Expr("before_CONFIGURE", pickWeight(r))
+	case 1:
+		w := pickWeight(r)
+		trig, await = envlab.Expr("leave_DEPLOYED", w), envlab.Expr("leave_DEPLOYED", laterWeight(r, w))
+	case 2:
+		trig, await = envlab.Expr("before_CONFIGURE", pickWeight(r)), envlab.Expr([]string{"leave_DEPLOYED", "enter_CONFIGURED", "after_CONFIGURE"}[r.Intn(3)], pickWeight(r))
+	case 3:
+		trig, await = envlab.Expr("after_CONFIGURE", pickWeight(r)), envlab.Expr([]string{"before_START_ACTIVITY", "leave_CONFIGURED", "enter_RUNNING"}[r.Intn(3)], pickWeight(r))
+	}
+	f := false
+	hc.Hooks = []envlab.HookSpec{
+		{Name: "oc", Kind: envlab.Call, Trigger: trig, Await: await, Timeout: "100ms", Behaviour: envlab.CallSlow, SleepMs: overrunSleepMs},
+		{Name: "on", Kind: envlab.Call, Trigger: trig, Await: await, Timeout: "100ms", Critical: &f, Behaviour: envlab.CallSlow, SleepMs: overrunSleepMs},
+	}
+	if r.Intn(2) == 0 {
+		hc.Hooks[0], hc.Hooks[1] = hc.Hooks[1], hc.Hooks[0]
+	}
+	for _, b := range genHooks(r, hc.Walk, 3, "h", true) {
+		hc.Hooks = append(hc.Hooks, b)
+	}
+	if r.Intn(2) == 0 {
+		hc.Hooks = append(hc.Hooks, sentinels(hc.Walk)...)
+	}
+	return hc
+}
+
 func execC08(w *envlab.World, hc HookCase) (*caseOutcome, error) {
 	lab, err := w.NewLab(hc.Hooks, nil)
 	if err != nil {
@@ -277,6 +336,9 @@ func countC08(c *vlib.Ctx, out *caseOutcome) {
 			return 1
 		}
 		return 0
+	}
+	if out.Case.Overrun {
+		c.Count("overrun_cases", 1)
 	}
 	c.Count("hook_sets", 1)
 	c.Count("sets_await_ne_trigger", b2i(awaitNe))
